@@ -240,3 +240,122 @@ Qed.
 
 Lemma ideal_verify_accepts_genuine : forall k c s, ideal_verify (k, c, s) k c s = true.
 Proof. intros. unfold ideal_verify. rewrite !beq_refl. reflexivity. Qed.
+
+(* ================================================================== full characterisations (any verify) *)
+Section Characterisation.
+  Variable verify : bytes -> bytes -> bytes -> bool.
+
+  (* Database.Check accepts EXACTLY when: the format is supported; the first layer holding the sign-key id yields a key;
+     that key's account is the assertion's authority; the key passes the expiry check for the clock bounds; its constraints
+     allow the assertion; verify holds for that key on exactly the assertion's content and signature core; and the key is
+     valid at the assertion's timestamp when it has one *)
+  Lemma check_iff : forall layers e l a, check verify layers e l a = true <->
+    a_supported a = true /\
+    exists k, find_key layers (a_sign_key a) = Some k /\
+      k_account k = a_authority a /\
+      valid_assuming k e l = true /\
+      can_sign k a = true /\
+      verify (k_id k) (a_content a) (a_sig_core a) = true /\
+      (forall t, a_timestamp a = Some t -> valid_at k t = true).
+  Proof.
+    intros layers e l a. split.
+    - intro H. destruct (accept_implies verify _ _ _ _ H) as (Hs & k & Ek & _ & _ & Hacc & Hv & Hts & Hcs & Hver).
+      split; [exact Hs|]. exists k. repeat split; assumption.
+    - intros (Hs & k & Ek & Hacc & Hv & Hcs & Hver & Hts). unfold check. rewrite Hs, Ek, Hacc, beq_refl, Hv, Hcs, Hver.
+      cbn [andb]. destruct (a_timestamp a) as [t|]; [apply Hts; reflexivity | reflexivity].
+  Qed.
+
+  (* the same with the system clock, the validity window spelled out: since <= now < until, since <= timestamp < until *)
+  Lemma check_now_iff : forall layers now a, check_now verify layers now a = true <->
+    a_supported a = true /\
+    exists k, find_key layers (a_sign_key a) = Some k /\
+      k_account k = a_authority a /\
+      k_since k <= now /\ (forall u, k_until k = Some u -> now < u) /\
+      can_sign k a = true /\
+      verify (k_id k) (a_content a) (a_sig_core a) = true /\
+      (forall t, a_timestamp a = Some t -> k_since k <= t /\ forall u, k_until k = Some u -> t < u).
+  Proof.
+    intros layers now a. unfold check_now. rewrite check_iff. split.
+    - intros (Hs & k & Ek & Hacc & Hv & Hcs & Hver & Hts). split; [exact Hs|]. exists k.
+      rewrite valid_assuming_now in Hv. apply valid_at_iff in Hv as [Hv1 Hv2].
+      repeat split; try assumption.
+      + intros u Hu. rewrite Hu in Hv2. exact Hv2.
+      + apply Hts in H. apply valid_at_iff in H. tauto.
+      + intros u Hu. apply Hts in H. apply valid_at_iff in H as [_ H]. rewrite Hu in H. exact H.
+    - intros (Hs & k & Ek & Hacc & Hsince & Huntil & Hcs & Hver & Hts). split; [exact Hs|]. exists k.
+      repeat split; try assumption.
+      + rewrite valid_assuming_now. apply valid_at_iff. split; [exact Hsince|].
+        destruct (k_until k) as [u|]; [apply Huntil; reflexivity | exact I].
+      + intros t Ht. apply valid_at_iff. destruct (Hts t Ht) as [H1 H2]. split; [exact H1|].
+        destruct (k_until k) as [u|]; [apply H2; reflexivity | exact I].
+  Qed.
+End Characterisation.
+
+(* ================================================================== the decoded signature: what is pinned down *)
+(* The decoded signature as an OpenPGP v4 signature packet: sp_header = packet tag and length octets (form and declared
+   length); sp_hashed = version, type, algorithms, hashed-subpacket length and area; sp_unhashed = the unhashed subpacket
+   area; sp_hashtag = the two hash tag octets; sp_mpi_bits = the MPI bit-length field; sp_mpi = the MPI bytes. *)
+Record sigpkt := mkSig { sp_header : bytes; sp_hashed : bytes; sp_unhashed : bytes; sp_hashtag : bytes;
+                         sp_mpi_bits : bytes; sp_mpi : bytes }.
+
+Definition len2 (b : bytes) : bytes := [N.of_nat (List.length b) / 256; N.of_nat (List.length b) mod 256]%N.
+(* the decoded bytes, in packet order (format octet 1 first) *)
+Definition sig_bytes (p : sigpkt) : bytes :=
+  (1%N :: sp_header p) ++ sp_hashed p ++ len2 (sp_unhashed p) ++ sp_unhashed p ++ sp_hashtag p ++ sp_mpi_bits p ++ sp_mpi p.
+(* the signature value: what verification reads *)
+Definition sig_value (p : sigpkt) : bytes * bytes * bytes := (sp_hashed p, sp_hashtag p, sp_mpi p).
+(* the four framing fields: packet header form (sig-packet-header-form) and declared length (sig-packet-length) are both in
+   sp_header; the unhashed area (sig-unhashed-subpacket); the MPI bit length (sig-mpi-bitlength) *)
+Definition same_value (p p0 : sigpkt) : Prop :=
+  sp_hashed p = sp_hashed p0 /\ sp_hashtag p = sp_hashtag p0 /\ sp_mpi p = sp_mpi p0.
+
+Section Framing.
+  Variable verify : bytes -> bytes -> bytes -> bool.
+  (* the core the driver computes is an injective encoding of the signature value *)
+  Variable enc : bytes * bytes * bytes -> bytes.
+  Hypothesis enc_inj : forall x y, enc x = enc y -> x = y.
+  (* everything ever genuinely signed: key id, content, signature packet *)
+  Variable G : list (bytes * bytes * sigpkt).
+  (* verify is a function of (key, content, signature value) and only genuine triples verify *)
+  Hypothesis ideal : forall kid c s, verify kid c s = true -> exists p0, In (kid, c, p0) G /\ s = enc (sig_value p0).
+
+  (* whatever is accepted carries the content and the signature VALUE of something genuinely signed with the named key:
+     compared with that genuine signature, only the four framing fields of the decoded signature can differ *)
+  Lemma accepted_only_framing_differs : forall layers e l a p,
+    a_sig a = sig_bytes p -> a_sig_core a = enc (sig_value p) ->
+    check verify layers e l a = true ->
+    exists p0, In (a_sign_key a, a_content a, p0) G /\ same_value p p0.
+  Proof.
+    intros layers e l a p Hsig Hcore H. apply check_iff in H as (_ & k & Ek & _ & _ & _ & Hver & _).
+    destruct (find_key_spec _ _ _ Ek) as [Hid _]. rewrite Hid in Hver.
+    apply ideal in Hver as (p0 & Hin & Hs). exists p0. split; [exact Hin|].
+    rewrite Hcore in Hs. apply enc_inj in Hs. unfold sig_value in Hs. injection Hs as H1 H2 H3.
+    unfold same_value. tauto.
+  Qed.
+
+  (* contrapositive, as a rejection statement: a change of any byte of the content, or of any byte of the decoded
+     signature outside the framing fields (i.e. in the hashed part, the hash tag or the MPI bytes), is rejected unless the
+     result is, in content and signature value, something else genuinely signed with that key *)
+  Lemma mutation_outside_framing_rejected : forall layers e l a p,
+    a_sig a = sig_bytes p -> a_sig_core a = enc (sig_value p) ->
+    (forall p0, In (a_sign_key a, a_content a, p0) G -> ~ same_value p p0) ->
+    check verify layers e l a = false.
+  Proof.
+    intros layers e l a p Hsig Hcore Hno. destruct (check verify layers e l a) eqn:E; [|reflexivity].
+    destruct (accepted_only_framing_differs _ _ _ _ _ Hsig Hcore E) as (p0 & Hin & Hsame). elim (Hno p0 Hin Hsame).
+  Qed.
+End Framing.
+
+(* ... and the framing fields ARE free: two assertions that differ only in the packet header, the unhashed area and the
+   MPI bit-length field of the decoded signature (same value, hence same core) get the same verdict, for any verify *)
+Lemma framing_is_free : forall verify (enc : bytes * bytes * bytes -> bytes) layers e l a a' p p',
+  a_sig_core a = enc (sig_value p) -> a_sig_core a' = enc (sig_value p') -> same_value p p' ->
+  a_supported a' = a_supported a -> a_authority a' = a_authority a -> a_sign_key a' = a_sign_key a ->
+  a_timestamp a' = a_timestamp a -> a_headers a' = a_headers a -> a_content a' = a_content a ->
+  check verify layers e l a' = check verify layers e l a.
+Proof.
+  intros verify enc layers e l a a' p p' Hc Hc' (H1 & H2 & H3) Hs Hau Hk Hts Hh Hco.
+  assert (Hcore : a_sig_core a' = a_sig_core a).
+  { rewrite Hc, Hc'. unfold sig_value. rewrite H1, H2, H3. reflexivity. }
+  unfold check, can_sign. rewrite Hs, Hau, Hk, Hts, Hh, Hco, Hcore. reflexivity.
+Qed.
